@@ -359,4 +359,48 @@ theorem loopN_no_diverge (fuel : Nat) (fmt : List Char) (args : List Arg) (out :
           · exact ih rest args2 _ _ _ (by omega)
         all_goals simp
 
+/-- every `int` print_i computes stays in the range of `int` as soon as its result does -/
+theorem printI_ints_range (u : BitVec 64) (isSigned : Bool) (width minLen : Int) (ops : Ops) (base : Nat)
+    (out : List Char) (pc : Int) (h : printI u isSigned width minLen ops base = some (out, pc))
+    (hw0 : 0 ≤ width) (hw : width ≤ INT_MAX) (hm0 : 0 ≤ minLen) (hpc : pc ≤ INT_MAX) :
+    ∀ x ∈ printIInts u isSigned width minLen ops base, -INT_MAX - 1 ≤ x ∧ x ≤ INT_MAX := by
+  unfold printI at h
+  unfold printIInts
+  simp only at h ⊢
+  generalize (if (isSigned && u.msb) = true then ['-']
+    else if (isSigned && ops.sign) = true then ['+']
+    else if (isSigned && ops.space) = true then [' ']
+    else if (decide (base = 8) && ops.spec && (decide ((if (isSigned && u.msb) = true then -u else u) ≠ 0) || (decide (minLen = 0) && ops.prec))) = true then ['0']
+    else if (decide (base = 16) && ops.spec && (decide ((if (isSigned && u.msb) = true then -u else u) ≠ 0) || ops.ptr)) = true then (if ops.upper = true then ['0', 'X'] else ['0', 'x'])
+    else [] : List Char) = pfx at h ⊢
+  split at h
+  · cases h
+  · rename_i digits hd
+
+    simp only [Option.some.injEq, Prod.mk.injEq] at h
+    obtain ⟨_, h2⟩ := h
+    subst h2
+    unfold INT_MAX at *
+    have hl : (0 : Int) ≤ (digits.length : Int) := Int.natCast_nonneg _
+    have hp : (0 : Int) ≤ (pfx.length : Int) := Int.natCast_nonneg _
+    generalize (digits.length : Int) = len at *
+    generalize (pfx.length : Int) = plen at *
+    generalize ht : (if len < minLen then minLen + if base = 8 then 0 else plen
+        else if (ops.zero && !(ops.left || ops.prec)) = true then width else 0) = t1 at *
+    have ht1 : (len < minLen → t1 = minLen ∨ t1 = minLen + plen) ∧ (¬ len < minLen → t1 = width ∨ t1 = 0) := by
+      subst ht
+      constructor
+      · intro hlt; rw [if_pos hlt]; split <;> simp
+      · intro hlt; rw [if_neg hlt]; split <;> simp
+    clear ht
+    intro x hx
+    simp only [List.mem_cons, List.mem_nil_iff, or_false] at hx
+    cases hol : ops.left <;> simp only [hol, Bool.not_true, Bool.not_false, if_true, if_false, Bool.false_eq_true] at hpc hx
+    all_goals
+      by_cases hlt : len < minLen
+      · rcases ht1.1 hlt with hh | hh <;>
+          (rcases hx with hx | hx | hx | hx | hx | hx | hx | hx | hx | hx | hx | hx | hx | hx | hx <;> rw [hx] <;> omega)
+      · rcases ht1.2 hlt with hh | hh <;>
+          (rcases hx with hx | hx | hx | hx | hx | hx | hx | hx | hx | hx | hx | hx | hx | hx | hx <;> rw [hx] <;> omega)
+
 end Igris.C06
